@@ -482,7 +482,7 @@ def composite_limit(F, R):
     n = 0
     for nm, m in sorted(man.items()):
         d = m.get("def")
-        if not d or d["sized"]:
+        if not d or d["sized"] or d.get("generic"):
             continue
         lists = [d["fields"]] if d["kind"] == "struct" else [v["fields"] for v in d["variants"]]
         risky = any(len(fs) >= 1 and not fs[-1]["sized"] and (len(fs) > 1 or d["kind"] == "enum") for fs in lists)
